@@ -6,3 +6,6 @@ import Gomjml.Props.C19
 #print axioms Gomjml.Props.C19.C19_tag_parse_lossless
 #print axioms Gomjml.Props.C19.C19_tag_append
 #print axioms Gomjml.Props.C19.C19_tag_merge
+#print axioms Gomjml.Props.C19.C19_scan_lossless
+#print axioms Gomjml.Props.C19.C19_scan_structure
+#print axioms Gomjml.Props.C19.C19_scan_untargeted_identity
